@@ -129,6 +129,13 @@ def body(chk):
         seed = rng.randint(0, 10 ** 6)
         dep_spec = gen_dep(rng, d) if method == "imc" else None
         n = rng.choice([2, 3, 5, 8, 20]) if (method == "slicing" and d == 1) else rng.choice([2, 3, 4]) if method == "slicing" else rng.choice([2, 5, 12, 30])
+        if it >= n_cases - 3:
+            # large samples: many probability levels per grid cell (anything keyed on a level must use the level's own alpha-cut)
+            method, api = "imc", "function"
+            sname = ["direct", "endpoints", "direct"][n_cases - 1 - it]
+            coq_strat, kw = STRATS[sname]
+            dep_spec = gen_dep(rng, d)
+            n = 400 if d == 1 else (1500 if d == 2 else 600)
         site = f"{method}:{api}:{sname}:{''.join(kinds)}" + (f":{dep_spec['family']}" if dep_spec else "")
         replay = {"kind": "oracle", "vars": vspec, "function": g13.py_src(e), "strategy": sname, "method": method, "api": api, "n": n, "seed": seed, "dependency": dep_spec}
         chk.count(f"{method}-{api}-{sname}-d{d}" + ("-dep" if dep_spec else ""), key=(str(vspec), g13.py_src(e), sname, method, api, n, seed, str(dep_spec)))
